@@ -1,10 +1,11 @@
 #!/bin/bash
 # usage: runseed.sh <seedname> <PROP>...  -- apply a seeded change to /repo, run the checks, undo it (reverse-apply; untracked files are left alone)
 S=$1; shift
-git -C /repo diff --quiet || { echo "/repo has uncommitted changes to tracked files: commit first"; exit 2; }
+FILES=$(grep '^+++ b/' /verif/seeded/$S/patch.diff | sed 's|^+++ b/||')
+git -C /repo diff --quiet -- $FILES || { echo "/repo has uncommitted changes in the files the seed touches ($FILES): commit first"; exit 2; }
 cd /repo && git apply /verif/seeded/$S/patch.diff || exit 2
 for P in "$@"; do
   case $P in C16|C17) BIN=govframe;; *) BIN=govc;; esac
   (cd /verif && ./bin/$BIN check $P 2>&1 | grep -v "^KNOWN" | tail -${TAILN:-4})
 done
-git -C /repo apply -R /verif/seeded/$S/patch.diff; git -C /repo diff --quiet && echo "(repo restored)"
+git -C /repo apply -R /verif/seeded/$S/patch.diff; git -C /repo diff --quiet -- $FILES && echo "(repo restored)"
